@@ -13,7 +13,7 @@ TRUSTED = [
     'Lean 4.33.0 kernel',
     'reading of the property as Props.C16.holdsOn (a string, a contiguous part of the input, the input itself without an envelope) and holdsOnW (exactly the body for well-formed messages)',
     'line-level hand model of the verbose regular expression pgp_signed (leftmost start line; signed group first; Hash group first then without; longest clear text; END line as a prefix), tied by correspondence',
-    "the running-time clause is MEASURED (scaling of four adversarial families with kill time-outs), not proved: no theorem can be stated about CPython's re engine",
+    "the running-time clause is MEASURED (scaling of six adversarial families with kill time-outs), not proved: no theorem can be stated about CPython's re engine",
     'translator harness/translate.py and this correspondence harness',
 ]
 ASSUMPTIONS = ['K6: header blocks RFC 4880 allows but that are not exactly one Hash line + one empty line are returned as part of the body (known finding)']
@@ -25,7 +25,7 @@ TECHNIQUE = ('Lean 4 theorems about the model (identity without an envelope; the
 LEVEL_TEXT = ('Proved in Lean 4 about the line-level model of remove_signature, for every text (enveloped or not, well-formed or malformed, LF or CRLF): the result is a contiguous part of '
               'the input (result_is_part_of_input); without a clear-sign envelope it is the input itself (unsigned_identity); it is always the input or the clear-text lines of a successful '
               'match, never None (removeSignature_cases). That, for well-formed messages, it is exactly the signed body is decided by the executable specification on every implementation observation and by correspondence of the model with the real regular '
-              'expression on well-formed, damaged and nested envelopes. The running-time clause is measured (four adversarial families, sizes 250-2000 lines, 20 s kill, growth factor per doubling <= 6), not proved.')
+              'expression on well-formed, damaged and nested envelopes. The running-time clause is measured (six adversarial families, sizes 250-2000 lines, 20 s kill, growth factor per doubling <= 6), not proved.')
 LEVEL_NOTE = ('Trusted: Lean kernel; axioms propext, Classical.choice, Quot.sound only; the model of the regular expression is tied by correspondence, not derived; the time clause is a measurement.')
 
 B64 = 'ABCDEFGHIJKLMNOPQRSTUVWXYZabcdefghijklmnopqrstuvwxyz0123456789+/'
@@ -67,6 +67,21 @@ def normalize(op, inp):
 
 def damaged(rng):
     m = wellformed(rng)
+    if rng.random() < 0.12:
+        # a checksum of the wrong length, or white space inside the armor: everything before it matches, so a
+        # pattern with an ambiguous repetition over the armor lines tries every way of splitting them
+        form, hashes, body, ah, b64, crc, crlf, fin, _t = m
+        b64 = [rand_b64(rng, rng.choice((24, 32, 48, 64, 76))) for _ in range(rng.choice((1, 1, 2, 3)))]
+        kind = rng.randrange(4)
+        if kind == 0:
+            crc = crc[:3]
+        elif kind == 1:
+            crc = crc + 'A'
+        elif kind == 2:
+            b64[-1] = b64[-1] + rng.choice((' ', '\t', ' x'))
+        else:
+            crc = crc[:2] + ' ' + crc[2:]
+        return mk(form, hashes, body, ah, b64, crc, crlf, fin)[8]
     t = m[8]
     k = rng.random()
     lines = t.split('\n')
@@ -197,14 +212,18 @@ import sys, time
 sys.path.insert(0, sys.argv[1])
 from debian_inspector import unsign
 fam, n = sys.argv[2], int(sys.argv[3])
-def msg(n, nl, hdrs=0, damage='sig'):
-    body = nl.join('line %d: x' % i for i in range(n))
+def msg(n, nl, hdrs=0, damage='sig', armor=None):
+    body = nl.join('line %d: x' % i for i in range(n if armor is None else 3))
     sig = ['-----BEGIN PGP SIGNATURE-----'] + ['a: b: c'] * hdrs + ['', 'iQEzBAEBCAAdFiEE', '=abcd', '-----END PGP SIGNATURE-----']
+    if armor is not None:
+        sig[-3:-2] = [('iQEzBAEBCAAdFiEE' * 5)[:min(armor, 76)]] * max(1, armor // 76)
+    if damage == 'crc3': sig[-2] = '=abc'
     if damage == 'sig': sig[-2] = '=abc!'
     if damage == 'body': sig[-3] = 'iQEz!AEB'
     return '-----BEGIN PGP SIGNED MESSAGE-----' + nl + 'Hash: SHA256' + nl + nl + body + nl + nl.join(sig)
 t = {'crlf-damaged-signature': lambda: msg(n, '\r\n'), 'lf-many-multicolon-headers-damaged-body': lambda: msg(n, '\n', hdrs=n, damage='body'),
-     'lf-damaged-signature': lambda: msg(n, '\n'), 'crlf-wellformed': lambda: msg(n, '\r\n', damage='no')}[fam]()
+     'lf-damaged-signature': lambda: msg(n, '\n'), 'crlf-wellformed': lambda: msg(n, '\r\n', damage='no'),
+     'lf-long-armor-short-crc': lambda: msg(n, '\n', damage='crc3', armor=n), 'crlf-long-armor-short-crc': lambda: msg(n, '\r\n', damage='crc3', armor=n)}[fam]()
 t0 = time.perf_counter(); unsign.remove_signature(t); print(time.perf_counter() - t0)
 '''
 
@@ -212,7 +231,8 @@ t0 = time.perf_counter(); unsign.remove_signature(t); print(time.perf_counter() 
 def extra(tier, rng):
     """measured, not proved: running time grows polynomially (here: at most ~ x6 per doubling) on adversarial families"""
     src = os.path.join(os.environ.get('VERIF_REPO', '/repo'), 'src')
-    fams = ['crlf-damaged-signature', 'lf-many-multicolon-headers-damaged-body', 'lf-damaged-signature', 'crlf-wellformed']
+    fams = ['crlf-damaged-signature', 'lf-many-multicolon-headers-damaged-body', 'lf-damaged-signature', 'crlf-wellformed',
+            'lf-long-armor-short-crc', 'crlf-long-armor-short-crc']
     sizes = (16, 32, 250, 500) if tier == 'quick' else (16, 32, 250, 500, 1000, 2000)
     times = {}
     fails = []
